@@ -7,7 +7,8 @@
    Grammar: Json/Grammar.v  sval h v  (structural JSON value needing at most h FSM frames),
             strict d v (RFC 8259 value of nesting depth at most d). *)
 From Coq Require Import NArith Bool List Arith.
-From SV.Json Require Import Chars StrScan NumScan Fsm Grammar StrScanProofs NumScanProofs FsmProofs Lang FsmSound FsmComplete Wrappers Fast FastProofs VsProofs GenComplete BitTrick.
+From SV.Json Require Import Chars StrScan NumScan Fsm Grammar StrScanProofs NumScanProofs FsmProofs Lang FsmSound FsmComplete Wrappers Fast FastProofs VsProofs GenComplete BitTrick M0MaskList M0MaskWord M0Block AdvanceNsBlocked NumBlocked.
+From SV.Simd Require Import Blocked.
 Import ListNotations.
 Open Scope N_scope.
 
@@ -209,11 +210,50 @@ Theorem C02_fsm_vs_complete_strict : forall d w v r,
 Proof. exact skip_one_vs_complete_strict. Qed.
 Print Assumptions C02_fsm_vs_complete_strict.
 
-(* ---- the backslash-run bit trick, 14-bit words ------------------------------------------------------------ *)
+(* ---- the backslash-run bit trick (m0_mask), every even word width --------------------------------------------- *)
 
-(* m0_mask (width-generic transcription) marks exactly the positions that follow an unescaped backslash and
-   produces the right carry, for every 14-bit backslash mask and both carries (complete sweep). The shipped code
-   uses 32- and 64-bit words: m0_mask_spec at those widths is not proved. *)
-Theorem C02_m0_mask_spec_w14_partial : forall m1 cr, m1 < 16384 -> cr < 2 -> check14 m1 cr = true.
-Proof. exact m0_mask_spec_w14_partial. Qed.
-Print Assumptions C02_m0_mask_spec_w14_partial.
+(* over bit lists of any even length: the ripple reading of
+     m1 &= ~cr; fe = (m1 << 1) | cr; os = (m1 & ~fe) & ODD_MASK; es = add(os, m1, &cr) << 1; escaped = fe & (es ^ EVEN_MASK)
+   marks exactly the escaped positions (at every position that is not a backslash) and carries out the pending escape *)
+Theorem C02_m0_mask_bits_spec : forall cr bs, Nat.even (length bs) = true ->
+  snd (m0_mask_bits cr bs) = snd (esc_flags cr bs) /\
+  (forall i, nth i bs true = false -> nth i (fst (m0_mask_bits cr bs)) false = nth i (fst (esc_flags cr bs)) false).
+Proof. exact m0_mask_bits_spec. Qed.
+Print Assumptions C02_m0_mask_bits_spec.
+
+(* m0_mask_spec on machine words: every even width w <= 64, every backslash mask, both carries - in particular the
+   shipped add32 / add64 versions *)
+Theorem C02_m0_mask_spec : forall w m1 crb, (0 < w <= 64)%nat -> Nat.even w = true -> m1 < 2 ^ N.of_nat w ->
+  let '(escaped, cr') := m0_mask (N.of_nat w) m1 (N.b2n crb) in
+  cr' = N.b2n (snd (esc_flags crb (bits w m1))) /\
+  forall i, (i < w)%nat -> tb m1 i = false -> tb escaped i = nth i (fst (esc_flags crb (bits w m1))) false.
+Proof. exact m0_mask_spec. Qed.
+Print Assumptions C02_m0_mask_spec.
+Example C02_m0_mask_spec_nonvacuous : m0_mask 64 0x0e 0 = (0x14, 0).     (* three backslashes at 1..3: position 4 is escaped (bit 2 lies on a backslash) *)
+Proof. vm_compute. reflexivity. Qed.
+
+(* one vector round as computed (movemask of quote / backslash, m0_mask, ctz) = the specification block_scan *)
+Theorem C02_block_round_eq : forall w crb blk, length blk = w -> (0 < w <= 64)%nat -> Nat.even w = true ->
+  block_round w crb blk = block_scan crb blk.
+Proof. exact block_round_eq. Qed.
+Print Assumptions C02_block_round_eq.
+
+(* the blocked string scanner without the block_scan abstraction *)
+Theorem C02_scan_blocked_bits_spec : forall fuel s, s <> [] -> (length s <= fuel)%nat ->
+  advance_string_default_bits fuel s = if bug_class s then Some [] else scan_scalar s.
+Proof. exact advance_string_default_bits_spec. Qed.
+Print Assumptions C02_scan_blocked_bits_spec.
+
+(* ---- the other vector rounds ---------------------------------------------------------------------------------- *)
+
+(* advance_ns: four unrolled tests + lspace_1 (32-byte rounds under AVX2, none under SSE) + scalar tail = specification *)
+Theorem C02_advance_ns_blocked_eq : forall ps, Forall (fun ph => width ph > 0)%nat ps ->
+  forall s, advance_ns_c ps s = advance_ns s.
+Proof. exact advance_ns_c_eq. Qed.
+Print Assumptions C02_advance_ns_blocked_eq.
+
+(* do_skip_number: 32/16-byte rounds (check_bits, check_vidx, stop at the first non-number byte) + scalar loop = scalar model *)
+Theorem C02_do_skip_number_blocked_eq : forall ws, Forall (fun W => 0 < W)%nat ws ->
+  forall s, do_skip_number_blocked ws s = do_skip_number s.
+Proof. exact do_skip_number_blocked_eq. Qed.
+Print Assumptions C02_do_skip_number_blocked_eq.
